@@ -3,8 +3,10 @@
 
     A case is a history on one real chain: the observed starting state (fee schedule and msgfees params
     as read from the COMMITTED store, balances, sequences, fee allowances), then steps:
-      HBlock   1-5 signed transactions offered to CheckTx one after the other (the node's check state
-               keeps the ante effects of the admitted ones) and then executed in ONE block, with what
+      HBlock   the transactions still pending from earlier steps offered again with CheckTx(Recheck), then
+               1-5 new signed transactions offered to CheckTx one after the other (the node's check state
+               keeps the ante effects of the admitted ones); those admitted and not held back by the
+               proposer are then executed in ONE block, with what
                the node did with each (admission, result code 0 or not, GasUsed) and the state observed
                after the block;
       HGov     a governance proposal (messages of x/msgfees and bank sends of the gov module account)
@@ -170,7 +172,8 @@ Definition check_prop (u : universe) (cfg : config) (t : tx) (pre post : state) 
     the block exactly (balances of every account in every denom, sequences, fee allowances). *)
 Inductive cls := KOut | KOk | KCharged | KNothing.
 
-Definition is_in_block (bx : btx * txobs) : bool := x_admitted (snd bx) || b_forced (fst bx).
+Definition is_in_block (bx : btx * txobs) : bool :=
+  x_admitted (snd bx) && negb (b_hold (fst bx)) || b_forced (fst bx).
 
 Fixpoint assignments (txs : list (btx * txobs)) (first : bool) : list (list cls) :=
   match txs with
@@ -181,7 +184,8 @@ Fixpoint assignments (txs : list (btx * txobs)) (first : bool) : list (list cls)
                   else if x_ok (snd bx) then [KOk]
                   else if first && negb (b_forced (fst bx)) then [KCharged]
                   else [KCharged; KNothing] in
-      flat_map (fun k => map (cons k) (assignments r (first && negb inb))) opts
+      (* a transaction admitted before it - in the block or held back - changed the check state it was admitted on *)
+      flat_map (fun k => map (cons k) (assignments r (first && negb (x_admitted (snd bx) || b_forced (fst bx))))) opts
   end.
 
 Definition bump_if (s : state) (t : tx) : acct -> Z :=
@@ -230,7 +234,12 @@ Definition cfg_agree (u : universe) (x y : config) : bool :=
 (* static clauses per transaction of a block *)
 Definition check_static (u : universe) (cfg : config) (bx : btx * txobs) : list string :=
   let t := b_tx (fst bx) in
-  tag (covered_preb u cfg t (routed_top t) || negb (x_admitted (snd bx))) "prop:uncovered fee admitted to the mempool" ++
+  (* the same clause for a new transaction and for a pending one offered again after a commit: what the
+     CURRENT mempool check (the committed schedule and params of this step) rejects must be rejected *)
+  tag (covered_preb u cfg t (routed_top t) || negb (x_admitted (snd bx)))
+      (if b_recheck (fst bx)
+       then "prop:a pending transaction whose declared fee the current schedule and params no longer cover was kept in the mempool on recheck"
+       else "prop:uncovered fee admitted to the mempool") ++
   if x_ok (snd bx) && is_in_block bx then
     tag (b_forced (fst bx) || forallb (fun d => amount_of (base_fee cfg (t_gas t)) d <=? amount_of (t_fee t) d) (u_denoms u))
         "prop:base fee exceeds the declared fee" ++
@@ -280,8 +289,10 @@ Definition check_block_step (u : universe) (mc pre : chain) (mg : Z) (txs : list
    tag (cfg_agree u (ch_cfg pre) (ch_cfg post)) "prop:a block of transactions changed the fee schedule or the msgfees params" ++
    match txs with
    | [(b, x)] =>
-       if b_forced b then check_block_prop u (ch_cfg pre) (ch_st pre) (ch_st post) txs
+       if b_forced b || b_hold b then check_block_prop u (ch_cfg pre) (ch_st pre) (ch_st post) txs
        else
+         tag (negb (b_recheck b) || covered_preb u (ch_cfg pre) (b_tx b) (routed_top (b_tx b)) || negb (x_admitted x))
+             "prop:a pending transaction whose declared fee the current schedule and params no longer cover was kept in the mempool on recheck" ++
          tag (match rs with [RAnteFail] => false | _ => true end) "corr:model says the ante handler fails in the block" ++
          check_prop u (ch_cfg pre) (b_tx b) (ch_st pre) (ch_st post) (x_admitted x) (x_ok x)
    | _ => check_block_prop u (ch_cfg pre) (ch_st pre) (ch_st post) txs
